@@ -921,6 +921,8 @@ class Interp:
         return TOPINT
 
     def _inline_value(self, f: Func, args: list[AV], kws: dict[str, AV], st: State, fn: Func, depth: int, recv: AV | None, node: ast.AST, arg_exprs: list[ast.expr] | None = None) -> AV:
+        if f.qual in self.stubs:
+            return self.stubs[f.qual](args, kws, recv)
         outs = self.inline(f, args, kws, st, fn, depth, recv, node, arg_exprs or [], {})
         if outs is None:
             rb = self.C.ret.get(f.qual)
